@@ -223,6 +223,8 @@ def _eval_land(t, tt):
         return float(t["scale"] * np.sum(np.abs(d)))
     if k == "wl1":
         return float(np.sum(np.asarray(t["w"]) * np.abs(d)))
+    if k == "scripted":
+        return 0.0  # values are produced by the monitor (outcome script), see runmon._scripted_value
     if k == "rosen":
         z = 4.0 * d + 1.0  # optimum at d = 0  (z = 1)
         if len(z) == 1:
